@@ -1,5 +1,6 @@
 import RaptorModel.Driver.Common
 import RaptorModel.Model.Cycle
+import RaptorModel.Model.Setup
 /-! Driver for the AMG properties C01, C08, C09, C10: parses dumped hierarchies, replays cycles
 with the executable model at `Float`, evaluates the stop logic and the specification predicates. -/
 namespace Raptor.Driver.Amg
@@ -290,13 +291,18 @@ def checkHier : Rd Verdict := do
   let feats := "hier" :: optFeats o ++ [s!"levels{H.length}"] ++ (if H.length ≤ 1 then ["trivial"] else []) ++
                (if H.any (fun l => l.info.any fun i => i.getD 0 0 == 0) then ["emptyrank_level"] else ["fullranks"])
   if nb aBefore != nb aAfter then return specFail (base ++ "/spec/user_matrix_altered") "" feats
-  -- setup stops at the size or depth limit
+  -- setup stops at the size or depth limit: the loop condition of the model is false on the last level
+  let so : Setup.Opts := { maxCoarse := o.maxCoarse, maxLevels := if o.maxLevels == 0 then none else some o.maxLevels }
   match H.getLast? with
   | some last =>
-    if last.n > o.maxCoarse && H.length < o.maxLevels then
+    if Setup.continue? so last.n H.length then
       return specFail (base ++ "/spec/stopped_early") s!"coarsest has {last.n} > max_coarse={o.maxCoarse} unknowns with {H.length} < max_levels={o.maxLevels} levels" feats
     if H.length > o.maxLevels && o.maxLevels > 0 then
       return specFail (base ++ "/spec/too_deep") s!"{H.length} levels, max_levels={o.maxLevels}" feats
+    -- every earlier level was extended because the loop condition held there
+    for (l, k) in H.dropLast.zipIdx do
+      if !Setup.continue? so l.n (k + 1) then
+        return specFail (base ++ "/spec/extended_past_limit") s!"level {k} with {l.n} unknowns was coarsened (max_coarse={o.maxCoarse}, max_levels={o.maxLevels})" feats
   | none => return badCase "empty hierarchy"
   for (l, k) in H.zipIdx do
     -- global sizes = sums of local sizes, reported identically on every rank; work vectors have the level's size
@@ -325,8 +331,7 @@ def checkHier : Rd Verdict := do
       if !(c.n < l.n) && l.aTrips.any (fun e => e.1 != e.2.1 && e.2.2 != 0) then
         return specFail (base ++ "/spec/not_coarser") s!"level {k}: {l.n} -> {c.n} unknowns" feats
       -- Galerkin: A_{k+1} = Pᵀ (A P) up to dropped entries
-      let ap := l.aTrips.flatMap fun a => (l.pTrips.filter fun p => p.1 == a.2.1).map fun p => (a.1, p.2.1, a.2.2 * p.2.2)
-      let pap := l.pTrips.flatMap fun p => (ap.filter fun q => q.1 == p.1).map fun q => (p.2.1, q.2.1, p.2.2 * q.2.2)
+      let pap := (Setup.galerkin (fun _ => true) (⟨l.n, l.n, l.A⟩ : Sparse.Csr Float) ⟨l.n, c.n, l.P⟩).entries
       let scale := (c.aTrips.map fun e => e.2.2.abs).foldl max 1e-300
       let want := denseF pap (1e-9 * scale); let got := denseF c.aTrips (1e-9 * scale)
       let keys := (want.map (·.1)) ++ (got.map (·.1))
